@@ -160,7 +160,7 @@ Print Assumptions C11_types_first.
    such a function breaks this obligation: the differential tie and the oracle then decide (tools/check.py). *)
 From Sylt Require Doc.SrcDigest Doc.DocSrcDigest Gen.GenSrcDigest.
 Theorem C11_model_sources_reviewed :
-  Sylt.Doc.SrcDigest.sources_reviewed ["sylt-compiler/src/dependency.rs"%string]
+  Sylt.Doc.SrcDigest.sources_reviewed ["sylt-compiler/src/dependency.rs"%string; "sylt-compiler/src/compiler.rs"%string; "sylt-compiler/src/intermediate.rs"%string]
     Sylt.Doc.DocSrcDigest.doc_src_digests Sylt.Gen.GenSrcDigest.src_digests = true.
 Proof. vm_compute. reflexivity. Qed.
 Print Assumptions C11_model_sources_reviewed.
